@@ -271,7 +271,7 @@ var c19Sites = []c19Site{
 	}, true},
 }
 
-func (C19) Cases(t core.Tier) int { return len(c19Classes) * len(c19Sites) * 2 * 2 }
+func (C19) Cases(t core.Tier) int     { return len(c19Classes) * len(c19Sites) * 2 * 2 }
 func (C19) Exhaustive(core.Tier) bool { return true }
 
 // runC19 executes defs + failing statement in the real session and the model and compares the report.
